@@ -5,20 +5,22 @@ package main
 
 func leafObs(prop string) []Ob {
 	grant := []Ob{
-		{ID: "E1.leaf.grant-type.accept", Fn: "op.ValidateGrantType", P: []string{"client", "grantType"}, Kind: "ret any", Pat: "ret(true)", Max: 1,
+		{ID: "E1.leaf.grant-type.accept", Fn: "op.ValidateGrantType", P: []string{"client", "grantType"}, Kind: "ret ok",
 			Why: "a grant is allowed only if it is in the client's registered grant types",
-			Req: []string{"nonnil($client)", "inloop($g, $client.GrantTypes())", "eq($grantType, $g)"}},
-		{ID: "E1.leaf.grant-type.only", Fn: "op.ValidateGrantType", Kind: "ret any", Not: "ret(false)", Max: 1},
+			Req: []string{"nonnil($client)", "member($grantType, $client.GrantTypes())"}},
+		{ID: "E1.leaf.grant-type.reject", Fn: "op.ValidateGrantType", P: []string{"client", "grantType"}, Kind: "ret fail",
+			Why: "a registered grant type is never refused",
+			Req: []string{"nil($client) || notmember($grantType, $client.GrantTypes())"}},
 	}
 	confidential := []Ob{
-		{ID: "E1.leaf.confidential", Fn: "op.IsConfidentialType", P: []string{"c"}, Kind: "ret any", Pat: "ret($c.ApplicationType() == op.ApplicationTypeWeb)", Max: 1},
-		{ID: "E1.leaf.confidential.only", Fn: "op.IsConfidentialType", Kind: "ret any", Max: 1},
+		{ID: "E1.leaf.confidential", Fn: "op.IsConfidentialType", P: []string{"c"}, Kind: "ret ok", Req: []string{"eq($c.ApplicationType(), op.ApplicationTypeWeb)"}},
+		{ID: "E1.leaf.confidential.only", Fn: "op.IsConfidentialType", P: []string{"c"}, Kind: "ret fail", Req: []string{"neq($c.ApplicationType(), op.ApplicationTypeWeb)"}},
 	}
 	respType := []Ob{
-		{ID: "E1.leaf.response-type.contains", Fn: "op.ContainsResponseType", P: []string{"types", "responseType"}, Kind: "ret any", Pat: "ret(true)", Max: 1,
-			Req: []string{"inloop($t, $types)", "eq($t, $responseType)"}},
-		{ID: "E1.leaf.response-type.only", Fn: "op.ContainsResponseType", Kind: "ret any", Not: "ret(false)", Max: 1},
-		{ID: "E1.leaf.response-type.validate", Fn: "op.ValidateAuthReqResponseType", P: []string{"client", "responseType"}, Kind: "ret ok", Max: 1,
+		{ID: "E1.leaf.response-type.contains", Fn: "op.ContainsResponseType", P: []string{"types", "responseType"}, Kind: "ret ok",
+			Req: []string{"member($responseType, $types)"}},
+		{ID: "E1.leaf.response-type.only", Fn: "op.ContainsResponseType", P: []string{"types", "responseType"}, Kind: "ret fail", Req: []string{"notmember($responseType, $types)"}},
+		{ID: "E1.leaf.response-type.validate", Fn: "op.ValidateAuthReqResponseType", P: []string{"client", "responseType"}, Kind: "ret ok",
 			Req: []string{`neq($responseType, "")`, "true(op.ContainsResponseType($client.ResponseTypes(), $responseType))"}},
 	}
 	cryptoLeaf := []Ob{
